@@ -1035,7 +1035,7 @@ func init() {
 	core.Register(&core.Check{
 		Spec: core.Spec{
 			Prop:        "C19",
-			Rule:        "Objects are valid vertices whose fields are replaced by boundary values: lengths 0,1,31,32,33,255,256,65535,65536 (ASCII, non-UTF-8, NUL, random) and nil for every string/bytes field; integers 0,1,2^7+-1,2^8+-1,2^16+-1,2^32+-1,2^63+-1,2^64-1,10^18+-1 for weight and both amount parts; timestamps epoch, +-1ns, 2^32 s, 2^34 s, negative, year 1, int64 nanosecond limits, zero time; hash patterns. Batch 0: one field at a time, every value (exhaustive for that list), raw and re-signed with the real keys; batch 1 (thorough: 1-5): all pairs of fields with a reduced value set; other batches: PRNG fill. Each object goes through 7 paths (vertex<->protobuf struct, <->protobuf wire bytes, transaction<->protobuf through transformers, vertex/transaction/melange/balance msgpack encode(vmihailenco)->decode(shamaton) through the real pairs): every signed field must come back identical (timestamps by UnixNano, nil = empty) and the verify outcome must not change; an explicit converter error counts as rejected, a panic or a silent change is a violation. An eighth path is the real vertices storage of a ledger: the object is written under a unique key through the storage hook and read back through ReadVertex and ReadTransactionByHash (storage fall back); the last 48 returned values are kept and compared with copies taken when they were returned after every later read. Non-trivial = every (path, object) with a non-default field; distinct by (path, field, value). Awaiting-cache lists: 2-6 transactions for one receiver whose optional byte fields (data absent, empty, present; receiver signature absent, present) differ from entry to entry, read back through both parties' lists and the removal call. After every transcoding path the code's own verification runs on the result: its verdict must equal the one for the original, and the fields are compared once more afterwards (verification must not alter what it verifies). Truncation storage: 1060 vertices, the real truncation, every vertex it checkpointed read back through ReadVertex and ReadTransactionByHash and compared with the vertex that was sealed; the live ones compared too. Live graph: every object the harness can sign validly is hung under the genesis vertex of a real ledger, gossiped to it and read back from the live graph through ReadVertex and ReadTransactionByHash.",
+			Rule:        "Objects are valid vertices whose fields are replaced by boundary values: lengths 0,1,31,32,33,255,256,65535,65536 (ASCII, non-UTF-8, NUL, random) and nil for every string/bytes field; integers 0,1,2^7+-1,2^8+-1,2^16+-1,2^32+-1,2^63+-1,2^64-1,10^18+-1 for weight and both amount parts; timestamps epoch, +-1ns, 2^32 s, 2^34 s, negative, year 1, int64 nanosecond limits, zero time; hash patterns. Batch 0: one field at a time, every value (exhaustive for that list), raw and re-signed with the real keys; batch 1 (thorough: 1-5): all pairs of fields with a reduced value set; other batches: PRNG fill. Each object goes through 7 paths (vertex<->protobuf struct, <->protobuf wire bytes, transaction<->protobuf through transformers, vertex/transaction/melange/balance msgpack encode(vmihailenco)->decode(shamaton) through the real pairs): every signed field must come back identical (timestamps by UnixNano, nil = empty) and the verify outcome must not change; an explicit converter error counts as rejected, a panic or a silent change is a violation. An eighth path is the real vertices storage of a ledger: the object is written under a unique key through the storage hook and read back through ReadVertex and ReadTransactionByHash (storage fall back); the last 48 returned values are kept and compared with copies taken when they were returned after every later read. Non-trivial = every (path, object) with a non-default field; distinct by (path, field, value). Awaiting-cache lists: 2-6 transactions for one receiver whose optional byte fields (data absent, empty, present; receiver signature absent, present) differ from entry to entry, read back through both parties' lists and the removal call. After every transcoding path the code's own verification runs on the result: its verdict must equal the one for the original, and the fields are compared once more afterwards (verification must not alter what it verifies). Truncation storage: 1060 vertices, the real truncation, every vertex it checkpointed read back through ReadVertex and ReadTransactionByHash and compared with the vertex that was sealed; the live ones compared too. Live graph: every object the harness can sign validly is hung under the genesis vertex of a real ledger, gossiped to it and read back from the live graph through ReadVertex and ReadTransactionByHash. Payloads that look like an encoding of something (gzip, zlib, JSON, base64, PEM, msgpack).",
 			Assumptions: []string{"equality of timestamps is equality of UnixNano, the quantity that is signed", "an explicit error from a converter (protobuf refusing non-UTF-8 text, the transformer refusing empty mandatory fields) is a rejection, not a silent change"},
 			Exhaustive:  false,
 			MinEvals:    5000, MinNontriv: 500,
